@@ -58,6 +58,44 @@ theorem huffTok_mono (hl hd : Huff) (minL minD : Nat) (s : Bytes) (p sz k : Nat)
                         distBase.getD dv 0 + bitsLE s p2 (distExtra.getD dv 0) > windowSize) := by omega
                     simp only [hdist, this, if_false]
 
+/-- a copy token's distance stays inside the output -/
+theorem huffTok_copy_dist (hl hd : Huff) (minL minD : Nat) (s : Bytes) (p sz len dist p1 : Nat)
+    (h : huffTok hl hd minL minD s p sz = .copy len dist p1) : dist ≤ sz := by
+  simp only [huffTok] at h
+  cases h1 : decodeSym hl s p minL with
+  | truncated => simp only [h1] at h; cases h
+  | corrupt => simp only [h1] at h; cases h
+  | sym v p1 =>
+    simp only [h1] at h
+    by_cases hv : v < 256
+    · simp only [hv, if_true] at h; cases h
+    · simp only [hv, if_false] at h
+      by_cases hv2 : v = 256
+      · simp only [hv2, if_true] at h; cases h
+      · simp only [hv2, if_false] at h
+        by_cases hv3 : v ≥ 286
+        · simp only [hv3, if_true] at h; cases h
+        · simp only [hv3, if_false] at h
+          by_cases ha : avail s p1 < lenExtra.getD (v - 257) 0
+          · simp only [ha, if_true] at h; cases h
+          · simp only [ha, if_false] at h
+            cases h2 : decodeSym hd s (p1 + lenExtra.getD (v - 257) 0) minD with
+            | truncated => simp only [h2] at h; cases h
+            | corrupt => simp only [h2] at h; cases h
+            | sym dv p2 =>
+              simp only [h2] at h
+              by_cases hd1 : dv ≥ 30
+              · simp only [hd1, if_true] at h; cases h
+              · simp only [hd1, if_false] at h
+                by_cases ha2 : avail s p2 < distExtra.getD dv 0
+                · simp only [ha2, if_true] at h; cases h
+                · simp only [ha2, if_false] at h
+                  by_cases hdist : distBase.getD dv 0 + bitsLE s p2 (distExtra.getD dv 0) > sz ∨
+                      distBase.getD dv 0 + bitsLE s p2 (distExtra.getD dv 0) > windowSize
+                  · simp only [hdist, if_true] at h; cases h
+                  · simp only [hdist, if_false, Tok.copy.injEq] at h
+                    omega
+
 theorem append_push (D out : Bytes) (b : UInt8) : (D ++ out).push b = D ++ out.push b := by
   apply Array.ext'; simp
 
@@ -117,16 +155,7 @@ theorem huffBlock_dict (D : Bytes) (hl hd : Huff) (minL minD : Nat) (s : Bytes) 
     | copy len dist p1 =>
       rw [ht] at h
       simp only [] at h ⊢
-      have hd' : dist ≤ out.size := by
-        simp only [huffTok] at ht
-        repeat' split at ht
-        all_goals first
-          | (cases ht; done)
-          | skip
-        all_goals
-          rename_i hdist
-          cases ht
-          omega
+      have hd' : dist ≤ out.size := huffTok_copy_dist _ _ _ _ _ _ _ _ _ _ ht
       rw [copyMatch_dict D dist len out hd', size_sub_dict]
       by_cases hc : capReached cap ((copyMatch out dist len).size - lo) = true
       · simp only [hc, if_true, BlockResult.pre]
@@ -217,7 +246,7 @@ theorem huffBlock_corrupt_lt (hl hd : Huff) (minL minD : Nat) (s : Bytes) (n lo 
     ∀ (fuel p : Nat) (out : Bytes) (r : BlockResult),
     huffBlock hl hd minL minD s (some n) lo fuel p out = r → out.size - lo < n →
     match r with
-    | .next _ o => True
+    | .next _ _ => True
     | .stop st _ o => st = .capped ∨ o.size - lo < n := by
   intro fuel
   induction fuel with
@@ -242,9 +271,6 @@ theorem huffBlock_corrupt_lt (hl hd : Huff) (minL minD : Nat) (s : Bytes) (n lo 
       · simp only [hc, Bool.false_eq_true, if_false] at h
         exact ih p1 _ r h (by simpa [capReached] using hc)
     | bad st => rw [ht] at h; simp only [] at h; subst h; exact Or.inr hlt
-
-theorem blockBody_next_size (s : Bytes) (cap : Option Nat) (lo p : Nat) (out : Bytes) (p1 : Nat) (out1 : Bytes)
-    (h : blockBody s cap lo p out = .next p1 out1) : True := trivial
 
 /-- a capped run stops as soon as `n` bytes are out: when it ends in `corrupt` (or `truncated`) it has
 produced fewer. -/
